@@ -94,17 +94,31 @@ def parse_records(text, header):
             continue
         elif t[0] == "end":
             recs[cur.id] = cur; cur = None
+        elif len(t) < 3:
+            continue
         elif t[0] == "mat":
-            r, c = int(t[2]), int(t[3])
-            vals = [parse_float(x) for x in t[4:4 + r * c]]
+            try:
+                r, c = int(t[2]), int(t[3])
+            except (ValueError, IndexError):
+                cur.vals[t[1]] = ("bad", line); continue
+            try:
+                vals = [parse_float(x) for x in t[4:4 + r * c]]
+            except ValueError:
+                vals = []
             if len(vals) != r * c:
                 cur.vals[t[1]] = ("bad", line)
             else:
                 cur.vals[t[1]] = ("mat", np.array(vals, dtype=float).reshape(r, c))
         elif t[0] == "int":
-            cur.vals[t[1]] = ("int", int(t[2]))
+            try:
+                cur.vals[t[1]] = ("int", int(t[2]))
+            except ValueError:
+                cur.vals[t[1]] = ("bad", line)
         elif t[0] == "num":
-            cur.vals[t[1]] = ("num", parse_float(t[2]))
+            try:
+                cur.vals[t[1]] = ("num", parse_float(t[2]))
+            except ValueError:
+                cur.vals[t[1]] = ("bad", line)
         elif t[0] in ("str", "word", "bits"):
             cur.vals[t[1]] = ("word", t[2:])
     return recs
